@@ -1,5 +1,6 @@
 import BlochVerif.Cli.Model
 import BlochVerif.Eval.Model
+import BlochVerif.Eval.Control
 import Mathlib.Tactic.Ring
 import Mathlib.Tactic.FieldSimp
 import Mathlib.Data.Rat.Defs
@@ -23,6 +24,11 @@ theorem annotation_takes_precedence (cli : Option Nat) (a : Nat) : resolveShots 
   cases cli <;> rfl
 
 theorem flag_used_only_without_annotation (c : Nat) : resolveShots (some c) none = (true, c) := rfl
+
+/-- when the echo switch is off, no program prints anything: for every program, draw sequence and fuel (the
+evaluator's induction principle applied to the relation "only forward", `Eval/Control.lean`) -/
+theorem a_quiet_run_echoes_nothing (prog : Parse.Program) (draws : List Float) (logOps : Bool) (fuel : Nat) :
+    (Eval.execute prog draws false logOps fuel).echo = [] := Eval.execute_quiet prog draws logOps fuel
 
 /-- echo output appears exactly when `--echo=all`, or the option is absent/auto and a single shot is run -/
 theorem echo_policy (opt : Option String) (cli ann : Option Nat) :
